@@ -52,6 +52,8 @@ struct World {
     sess_seq: Vec<u64>,
     /// ids of the frames the last successful call said it appended (the id the API returned)
     returned: Vec<String>,
+    /// what the last ensure_default returned
+    ensured: Option<String>,
 }
 
 fn data_dir(root: &Path) -> PathBuf {
@@ -74,7 +76,7 @@ impl World {
         let log = Arc::new(EventLog::new(truth_path(root)).expect("event log"));
         let store = ContinuityStore::new(data_dir(root), ws_dir(root), log.clone()).expect("store");
         let n = sess_ids.len();
-        World { root: root.to_path_buf(), log, store, threads, last_msg, sess_ids, sess_seq: vec![0; n], returned: vec![] }
+        World { root: root.to_path_buf(), log, store, threads, last_msg, sess_ids, sess_seq: vec![0; n], returned: vec![], ensured: None }
     }
     fn tid(&self, t: usize) -> String {
         self.threads.get(t).cloned().unwrap_or_else(|| NO_THREAD.to_string())
@@ -91,6 +93,7 @@ impl World {
         match op {
             Op::Ensure => {
                 let id = self.store.ensure_default()?;
+                self.ensured = Some(id.clone());
                 if !self.threads.contains(&id) {
                     self.threads.push(id);
                 }
@@ -602,7 +605,7 @@ fn run_workload(ops: &[Op], scratch: &Path, wl_json: serde_json::Value, with_mod
             std::fs::rename(&root, &parked).expect("park live store");
             std::fs::rename(&s.dir, &root).expect("move snapshot in");
             let modelled = point_code(s.name) != 0;
-            let c = analyse(&s, &root, i, point_ordinal, &w, &recs, &acked, &fids, ops, scratch, &wl_json, with_model && modelled);
+            let c = analyse(&s, &root, i, point_ordinal, &w, &recs, &acked, &fids, ops, scratch, &wl_json, with_model && modelled, threads_before);
             if modelled {
                 point_ordinal += 1;
             }
@@ -639,6 +642,7 @@ fn analyse(
     scratch: &Path,
     wl_json: &serde_json::Value,
     with_model: bool,
+    threads_acked: usize,
 ) -> CaseOut {
     let mut violations: Vec<(String, String)> = vec![];
     let threads0 = w.threads.clone();
@@ -705,6 +709,19 @@ fn analyse(
                 Err("panic".into())
             }
         };
+        // availability: ensure_default, and an append to a thread whose creation had been acknowledged before the
+        // crash or that ensure_default has just returned, must not be refused
+        let must_succeed = match op {
+            Op::Ensure => true,
+            Op::Msg { t, .. } => *t < threads_acked || w2.ensured.as_deref() == Some(w2.tid(*t).as_str()),
+            _ => false,
+        };
+        if must_succeed && r.is_err() {
+            violations.push((
+                format!("after a crash at {} (op {op_index}) and restart the follow-up {:?} was refused: {}", s.name, op, r.as_ref().err().unwrap()),
+                classify(&[], "followup_refused"),
+            ));
+        }
         let frames = diff_frames(root, before);
         for (k, b) in frames.iter().enumerate() {
             if b.ok {
@@ -956,7 +973,7 @@ fn main() {
         let cases = run_workload(ops, scratch.path(), wl_json.clone(), *with_model && !a.oracle_only(), &mut res);
         for c in cases {
             res.evaluations += 1;
-            res.oracle_checks += 7;
+            res.oracle_checks += 8;
             res.bump(&format!("point={}", c.json["crash_point"].as_str().unwrap_or("")));
             distinct.add(&format!("{wi}/{}", c.json["point_ordinal"]));
             let mut case_id: i64 = -1;
